@@ -262,6 +262,7 @@ def r3(ctx, F, rule, sfx):
 
 
 def r4(ctx, F, rule, sfx):
+    wrappers_forward(ctx, F, rule, sfx)
     c03.r6(ctx, F, rule, sfx)
 
 
